@@ -82,6 +82,11 @@ func c18RunOps(c *Ctx, l *lib.Lean, name string, ops []string) error {
 			}
 		}
 		return c18RunPeerHistory(c, l, c18PeerHistory{name: name, nhosts: nh, ngroups: ng, ops: ops})
+	case strings.HasPrefix(ops[0], "am "):
+		_, err := c18AmRun(c, l, "addrmgr/"+name, ops)
+		return err
+	case strings.HasPrefix(ops[0], "scenario addrmgr-connmgr"):
+		return c18AmConnScenario(c, "addrmgr/"+name, ops)
 	case strings.HasPrefix(ops[0], "wire "):
 		_, _, err := c18WiredSession(c, l, "wire/"+name, ops, nil, 0)
 		return err
@@ -111,6 +116,7 @@ func runC18(c *Ctx) error {
 	c.R.Rule = "peers: seeded histories of add(in|out|pers, host, version-known)/done/ban/clock/addbad/shutdown/dump over 9 address texts of several families (IPv4 incl. two in one /16 and one RFC1918, IPv6 lower and upper case, link-local with zones %eth0 and %lo, IPv4-mapped IPv6; the model's host is the text SplitHostPort(sp.Addr()) yields, so an inbound and an outbound peer of one machine can be different hosts) (styles mix, fill = persistent peers up to MaxPeers, accident = peers without version/id 0) and 30 hosts x 7 groups (wide), each executed on the real handlers with real peer.Peer objects after a real version handshake over an in-memory connection, compared per op with the Lean model; non-trivial = at least one refusal for per-host limit, total limit or ban. " +
 		"connmgr lock-step: seeded scripts of dial ok/fail/address error/Disconnect/Remove/cancel on the real ConnManager (target 0..8, 1 ms retry, with and without BanAddress), counts compared with the Lean counter machine after every event; non-trivial = at least one failure and one disconnect. " +
 		"wired: the real server handlers own the real ConnManager (sp.connReq set as in outboundPeerConnected); seeded online scripts of dial ok (-> handshake -> admission; a refused outbound peer goes through handleDonePeerMsg) / fail / address error / peer done / inbound arrivals / ban / clock, target 1..4, compared per event with the composed Lean model (Model/PeerWire) and the oracle established + in flight = target; non-trivial = an outbound or inbound peer refused for ban, per-host or total limit. " +
+		"addrmgr: seeded histories of AddAddresses/Good/Attempt/Connected/BanAddress/GetAddress/clock on the real AddrManager over 1..5 addresses x 3 sources, every GetAddress under a watchdog, bookkeeping compared per op with the Lean model (Model/AddrMgr) through an in-package overlay; oracle: GetAddress returns, nil iff no unbanned address known, never a banned address, counters = bucket contents; plus the real connmgr wired to the real addrmgr; non-trivial = a ban and a Good in the history. " +
 		"connmgr free-running: real interleavings, oracle only. The witnesses of the two repaired defects (corpus/C18: 25 refusals of one address with BanAddress; outbound peer answered with two version messages) run first."
 	l := c.lean()
 	defer l.Close()
@@ -220,8 +226,24 @@ func runC18(c *Ctx) error {
 	if c.Thorough {
 		cplans = []cplan{{"noban", 600, 150}, {"ban", 600, 100}, {"cancel", 400, 60}, {"banheavy", 800, 30}}
 	}
+	connBad := func() int { return len(c.R.Failures) + len(c.R.Disagreements) }
+	bad0 := connBad()
+	// duplicate / late Disconnect(id) while the replacement dial is held, targets 1..8
+	for t := 1; t <= 8 && connBad() == bad0; t++ {
+		ops := c18GenDupDisc(rng, t)
+		if _, err := c18Lockstep(c, l, ops, "conn/dupdisc"); err != nil {
+			return err
+		}
+		c.R.Case("conn|"+strings.Join(ops, ";"), true)
+		c.R.Count("conn:history:dupdisc", 1)
+		c.R.Count("conn:ops", len(ops))
+	}
+connPlans:
 	for _, p := range cplans {
 		for i := 0; i < p.count; i++ {
+			if connBad() != bad0 {
+				break connPlans // every further failing history would wait out the settle time again
+			}
 			ops := c18GenConnHistory(rng, p.n, p.style)
 			done, err := c18Lockstep(c, l, ops, "conn/"+p.style)
 			if err != nil {
@@ -281,12 +303,43 @@ wired:
 		}
 	}
 
+	// (e) the real address manager (the connection manager's source of addresses), per op against the model
+	nam, lam := 120, 70
+	if c.Thorough {
+		nam, lam = 1500, 120
+	}
+	for i := 0; i < nam; i++ {
+		ops := c18AmGen(rng, lam)
+		ok, err := c18AmRun(c, l, "addrmgr/gen", ops)
+		if err != nil {
+			return err
+		}
+		nb, ng := 0, 0
+		for _, op := range ops {
+			if strings.HasPrefix(op, "am ban") {
+				nb++
+			}
+			if strings.HasPrefix(op, "am good") {
+				ng++
+			}
+		}
+		c.R.Case("am|"+strings.Join(ops, ";"), nb > 0 && ng > 0)
+		c.R.Count("addrmgr:history", 1)
+		c.R.Count("addrmgr:ops", len(ops))
+		if i == 0 {
+			c.R.Sample(map[string]any{"history": "addrmgr/gen", "first_ops": ops[:12]}, 14)
+		}
+		if !ok {
+			break // a hung GetAddress keeps a CPU busy for the rest of the run: one failing history is enough
+		}
+	}
+
 	// (d) connection manager, free-running
 	nfree := 10
 	if c.Thorough {
 		nfree = 80
 	}
-	for i := 0; i < nfree; i++ {
+	for i := 0; i < nfree && connBad() == bad0; i++ {
 		c18FreeRun(c, rng, 1+rng.Intn(8), i%2 == 1, 3+rng.Intn(4))
 	}
 	c.R.ModelOps = l.Ops
